@@ -12,7 +12,7 @@ RULE = ("flavour A: reachable states of the eight dataset algorithms under a stu
 ASSUMPTIONS = [
     "stub flavour: successor depends only on (S,P,U,round,frozen regions,total cost) and the event, so merging on that tuple is exact",
     "real-model flavour is shallow (observation menu of 3 values, depth <= 2) plus one seeded noisy continuation per configuration",
-    "VOGP_AD is exercised by the C18 check (adaptive design space); DecoupledGP (batch 1): the Thompson-entropy value table is recomputed with the real acquisition on a pre-step model copy after restoring the torch generator state, and the requested pair must maximise it; larger batches: data flow only",
+    "VOGP_AD: the C18 explicit-state exploration is reused with this property's transition checks; DecoupledGP (batch 1): the Thompson-entropy value table is recomputed with the real acquisition on a pre-step model copy after restoring the torch generator state, and the requested pair must maximise it; larger batches: data flow only",
 ]
 
 
@@ -30,7 +30,7 @@ def replay_case(case):
 
 def finish(ctx, merged):
     c = merged["counters"]
-    need = ["c06_transitions_checked", "c06_post_completion_checked", "c06_real_post_completion_checked"] if PROPERTY == "C06" else         ["c07_evaluations_checked", "c07_argmax_checked", "c07_real_steps_checked", "c07_real_argmax_checked"]
+    need = ["c06_transitions_checked", "c06_post_completion_checked", "c06_real_post_completion_checked"] if PROPERTY == "C06" else         ["c07_evaluations_checked", "c07_argmax_checked", "c07_real_steps_checked", "c07_real_argmax_checked", "c07_ad_evaluations_checked"]
     missing = [k for k in need if not c.get(k)]
     if missing:
         return {"harness_error": f"vacuous: {missing}"}
